@@ -345,6 +345,13 @@ func init() {
 					}
 				}
 			}
+			// a reader of the target container takes the container's lock at any moment while the last
+			// reference is dropped (the value is cleared from the container before its release function runs)
+			T("TR", func() {
+				for i := 0; i < 2; i++ {
+					e.target.GetValue()
+				}
+			})
 			vsched.CtrAdd(rcHeld, -1)
 			vsched.CtrSet(rcRefHeld+0, 0)
 			ref.Release()
@@ -389,6 +396,74 @@ func init() {
 			vsched.Settle()
 			e.finalRelease()
 			e.setContext(nil)
+			vsched.Settle()
+			e.finalRelease()
+		},
+	})
+	eng.Register(&eng.Scenario{
+		Name: "refcount-drop-inflight", Props: []string{"C09", "C08"}, MustFinish: true, ObsNames: stdObs,
+		Doc:   "RefCount (not keep-unreferenced): the only reference is dropped while the resolver call it started is still running (the call returns its value only after its context was cancelled, or after two more steps; choice); once quiet nothing is referenced: the late value is released and not kept; a reference added afterwards gets a value resolved by a new call, never the late result of the abandoned one",
+		Quick: eng.Bounds{PB: 2, Delay: true}, Thorough: eng.Bounds{PB: 3, Delay: true},
+		Body: func() {
+			e := newRC2(bg, false, firstThen([]int{mLate, mSlow}[vsched.Choose(2)]))
+			r := e.rc.AddRef(refCb(0))
+			if vsched.Choose(2) == 1 {
+				vsched.Settle() // the resolver call is parked inside the resolver
+			}
+			r.Release()
+			vsched.Settle()
+			if vsched.Ctr(rcRet0+1) == 1 {
+				if vsched.Ctr(rcRel0+1) != 1 {
+					fail("C08.not-released", "resolver call 1 returned its value after the only reference had been dropped: its release function ran %d times by the next quiescent state", vsched.Ctr(rcRel0+1))
+				}
+				if e.target.GetValue() == valOf(1) {
+					fail("C09.stale-result-kept", "nothing is referenced (and keep-unreferenced is off) but the target container holds the late result of the abandoned resolver call")
+				}
+			}
+			calls := vsched.Ctr(rcCalls)
+			r2 := e.rc.AddRef(refCb(1))
+			vsched.CtrSet(rcRefHeld+1, 1)
+			vsched.CtrAdd(rcHeld, 1)
+			vsched.Settle()
+			if vsched.Ctr(rcCalls) == calls && vsched.Ctr(rcLastRes+1) == 2 {
+				fail("C09.stale-result-delivered", "a reference added while nothing was referenced was given (true,%d) without any new resolver call: the result of the call abandoned earlier", vsched.Ctr(rcLastVal+1))
+			}
+			e.quiescentOracle([]int{1})
+			vsched.CtrAdd(rcHeld, -1)
+			vsched.CtrSet(rcRefHeld+1, 0)
+			r2.Release()
+			vsched.Settle()
+			e.finalRelease()
+		},
+	})
+	eng.Register(&eng.Scenario{
+		Name: "refcount-waitcontainer", Props: []string{"C09"}, MustFinish: true, ObsNames: stdObs, RacePB: 2,
+		Doc:   "refcount.WaitRefCountContainer on the target / error containers of a RefCount whose first resolver call returns a value or an error (choice), while a reference user comes and goes and the context may change: it returns the value or the error that was delivered to the containers",
+		Quick: eng.Bounds{PB: 2, Delay: true}, Thorough: eng.Bounds{PB: 3, Delay: true},
+		Body: func() {
+			e := newRC2(bg, false, firstThen([]int{mValue, mError, mSlow}[vsched.Choose(3)]))
+			wctx, wcancel := context.WithCancel(bg)
+			defer wcancel()
+			T("W", func() {
+				label("WaitRefCountContainer")
+				v, err := refcount.WaitRefCountContainer(wctx, e.target, e.targetErr)
+				label("")
+				switch {
+				case err == nil:
+					if i := v - 100; i < 1 || i > 8 || vsched.Ctr(rcRet0+i) != 1 {
+						fail("C09.bogus-value", "WaitRefCountContainer returned value %d which no resolver call returned", v)
+					}
+				case err == errResolve:
+				case err == context.Canceled && vsched.Ctr(rcCtxChange) != 0:
+				default:
+					fail("C09.bogus-value", "WaitRefCountContainer returned (%d,%v)", v, err)
+				}
+			})
+			T("U0", func() { e.user(0, false, false) })
+			T("U1", func() { e.user(1, true, false) })
+			vsched.Settle()
+			vsched.CtrAdd(rcCtxChange, 1)
+			wcancel()
 			vsched.Settle()
 			e.finalRelease()
 		},
